@@ -580,7 +580,8 @@ class Engine:
                 if v is not None:
                     return v
             if 'named' in o:
-                return ('sym', 'const ' + o['named'])
+                m = re.search(r'\[.*; (\d+)\]$', o.get('ty', ''))
+                return ('sym', 'const ' + o['named'] + ('#len=%s' % m.group(1) if m else ''))
             if o['ty'] == '()':
                 return UNIT
             if o['ty'] in INT_W and re.fullmatch(r'Ty\(\w+, \w+/#\d+\)', o.get('dbg', '')):
@@ -839,6 +840,11 @@ class Engine:
         lf = self.p.fns.get(c)
         local_manual = lf is not None and not lf.get('derived') and not lf['span']['exp']
         aty = lambda i: (t.get('atys') or ['', ''])[i] if i < len(t.get('atys') or []) else ''
+        if c.endswith('boxed::box_assume_init_into_vec_unsafe') or c.endswith('boxed::box_assume_init_into_vec'):
+            # vec![a, b, c]: the element count is in the argument's type Box<MaybeUninit<[T; N]>>
+            m = re.search(r'; (\d+)\]>+$', aty(0))
+            if m:
+                return one(('term', 'vec#len=%s' % m.group(1), [self.purify(args[0], s)]))
         if tc in ('core::cmp::PartialEq::eq', 'core::cmp::PartialEq::ne'):
             if local_manual:
                 return None
